@@ -14,12 +14,12 @@ From Coq Require Import Permutation.
    the digraph {u -> v | v neighbour of u, T u v} with the initially recovered nodes removed;
    S + I + R = N; the history of v (full data) has an I entry at tmin + k iff v is in I_k
    and an R entry exactly one step later (C12_history_entries). *)
-(* Scope of THIS theorem: test_recovery = None and initial_infecteds given (runs with a recovery test and the
-   rho path: Props/C04disc.v, C05disc.v, C09disc.v -- every rule, every draw script -- state what those runs are).  FULL statement of the property also
-   covers a user recovery test (node stays infectious until the test succeeds; for a rule that is
-   a function of the pair the infection times are still the BFS distances) and the rho path
-   (initial nodes drawn by random.sample): those two are validated by the correspondence and by
-   the independent BFS / generation oracle of harness/disc_lib.py only -- not proved here. *)
+(* Scope of THIS theorem: test_recovery = None and initial_infecteds given.  WITH a user recovery test
+   (table rules that are functions of the pair): Props/C12rec.v -- same infection times = BFS distances,
+   infectious until the test first succeeds.  Arbitrary rules (incl. age-dependent ones, the default rule
+   under any draw script), both simulators: Props/C04disc.v, C09disc.v, C10disc.v state what those runs are.
+   The rho path (initial nodes drawn by random.sample): Props/C05disc.v -- a rho run is a run from an
+   explicit duplicate-free set.  Independence of the iteration order in all these cases: Props/C12ord.v. *)
 Theorem C12_dsir_bfs : forall g tt pick ord i0 r0o tmin tmax full fuel,
   let r0 := opt_list r0o in let T := T0 tt in
   wf_inputb g i0 r0 = true -> perm_oracle ord -> (length (gnodes g) < fuel)%nat ->
